@@ -441,6 +441,29 @@ fn check<const N: usize>(case: &Case, obs: &mut Obs) -> PropResult {
 		collision |= inh_y.iter().any(|(k, _)| *k == c2);
 		inh_y.push((c2, sup2));
 	}
+	// a translated name that coincides with the name of one of its own (transitive) super types closes a cycle: not an
+	// inheritance graph any more (the thorough tier met one at seed 1: the walk of the code under test does not end there)
+	{
+		let map: std::collections::BTreeMap<&str, &Vec<String>> = inh_y.iter().map(|(k, v)| (k.as_str(), v)).collect();
+		fn cyclic<'a>(map: &std::collections::BTreeMap<&'a str, &'a Vec<String>>, node: &'a str, path: &mut Vec<&'a str>, done: &mut std::collections::BTreeSet<&'a str>) -> bool {
+			if path.contains(&node) {
+				return true;
+			}
+			if !done.insert(node) {
+				return false;
+			}
+			path.push(node);
+			let r = map.get(node).map_or(false, |sup| sup.iter().any(|s| cyclic(map, s.as_str(), path, done)));
+			path.pop();
+			r
+		}
+		let mut done = std::collections::BTreeSet::new();
+		for (k, _) in &inh_y {
+			if cyclic(&map, k.as_str(), &mut Vec::new(), &mut done) {
+				collision = true;
+			}
+		}
+	}
 	if collision {
 		// an unmapped name of X coincides with a Y name: the translated graph is ambiguous by nature
 		obs.label("translated_graph_collision");
